@@ -439,7 +439,7 @@ def shrink_item(item, rerun_case):
     mode = item["mode"]
     if mode == "c03e2e":
         return shrink_e2e(item, rerun_case)
-    if mode in ("c04cli", "c04os", "c19cli", "c04ev", "c03fig", "c04cal"):
+    if mode in ("c04cli", "c04os", "c19cli", "c04ev", "c03fig", "c04cal", "c04dur"):
         return item          # already small; their tokens are not those of a loop case
 
     def fails(case_line):
@@ -908,3 +908,44 @@ def calib_stream(name):
                   impl_timeout=600,
                   describe="fresh process, real overhead calibration under the auto-stepping virtual clock: rounds (from the event log) "
                            "vs the rule with the elapsed time measured from just before the first sample")
+
+
+# ---------------------------------------------------------------------------
+# C04: seconds given as plain numbers in attributes (IntoDuration), function level and end to end
+# ---------------------------------------------------------------------------
+
+def into_duration_stream(name, rng, count):
+    U = [0, 1, 2, 59, 2**32, 2**53 - 1, 2**53, 2**53 + 1, 2**53 + 3, 2**63 - 1, 2**63, 2**63 + 1, 2**64 - 2049, 2**64 - 2048, 2**64 - 2047,
+         2**64 - 1026, 2**64 - 1025, 2**64 - 1024, 2**64 - 1023, 2**64 - 513, 2**64 - 2, 2**64 - 1, 10**18 + 1, 123456789012345679]
+    F = ["0", "0.000000001", "0.000000002", "0.0004", "0.000002", "0.1", "0.3", "0.7", "0.999999999", "1", "1.000000001", "1.5",
+         "59.999999999", "123.456789012", "0.05", "86400", "999.999999999"]
+    cases = [f"u={u}" for u in U] + [f"f={f}" for f in F]
+    while len(cases) < count:
+        if rng.random() < 0.5:
+            u = rng.choice([rng.getrandbits(64), rng.getrandbits(rng.randrange(1, 65)), 2**rng.randrange(50, 64) + rng.randrange(-3, 4)])
+            c = f"u={min(max(u, 0), 2**64 - 1)}"
+        else:
+            c = f"f={decimal_secs(rng.randrange(0, 1000 * 10**9))}"
+        if c not in cases:
+            cases.append(c)
+
+    def nt(case, model_line):
+        return case not in ("u=0", "f=0")
+    return Stream(name, "c04dur", cases, nontrivial=nt, crate="hx-loop", drv="loop",
+                  describe="divan::__private::IntoDuration for u64 (boundary values up to u64::MAX) and f64 (decimals with at most 9 "
+                           "fractional digits below 1000 s) vs the exact number of nanoseconds")
+
+
+def attr_limit_cases():
+    """hx-loop-e2e benches whose attributes give the limits as plain numbers of seconds (through the real macro)."""
+    UMAX = "18446744073709551615"
+    cases = []
+    for bench in ("vmax_u64max", "vmax_durmax"):
+        for cost in (100_000, 5_000_000):
+            cases.append(f"bench={bench} via=attr mode=b n=3 s=1 threads=1 maxs={UMAX} tvia=attr vcost={cost} evlog=1")
+    for bench in ("vmin_u64max", "vmin_durmax"):
+        for cost in (100_000, 250_000, 2_500_000):
+            cases.append(f"bench={bench} via=attr mode=b n=2 s=1 threads=1 mins={UMAX} maxs=0.000002 tvia=attr vcost={cost} evlog=1")
+    cases.append("bench=vmin_big via=attr mode=b n=2 s=1 threads=1 mins=18446744073709550591 maxs=0.000002 tvia=attr vcost=100000 evlog=1")
+    cases.append("bench=vmax_2p53 via=attr mode=b n=3 s=1 threads=1 maxs=9007199254740993 tvia=attr vcost=100000 evlog=1")
+    return cases
